@@ -27,10 +27,27 @@ ASSUMPTIONS = [
 
 
 def generate(tape, tier="quick"):
+    if tape.chance(1, 25):
+        # real library components stepping with relativedelta (months from a month-end day, mixed with days)
+        from ..calendar import gen_calendar
+        return gen_calendar(tape)
     return gen_e1(tape, tier, allow_finish=True)
 
 
+RULE = RULE + (" A 1/25 share of the runs is the calendar family (sim/calendar.py): real CallbackGenerator -> [Scale | "
+               "DelayFixed] -> real CallbackComponent(s) stepping with relativedelta months/days from month-end start days, "
+               "judged without a model (announced time == model time == time after the update; received publication is the "
+               "one for the requested time; run ends at or beyond the end time).")
+REAL = list(REAL) + ["CallbackGenerator / CallbackComponent with relativedelta steps (calendar family)"]
+CAL_OWN = ('cal-run-raises', 'cal-time-not-increasing', 'cal-end-not-reached')
+
+
 def execute(sc):
+    if sc.get("engine") == "K":
+        from ..calendar import run_calendar
+        r = run_calendar(sc)
+        r["violations"] = [v for v in r["violations"] if v["oracle"] in CAL_OWN]
+        return r
     r = run_e1(sc)
     obs = r["obs"]
     viol = [v for v in r["violations"] if v["oracle"] in OWN]
@@ -51,4 +68,6 @@ def execute(sc):
 
 
 def known_sig(sc, v):
+    if sc.get("engine") == "K":
+        return None
     return e1_known_sig(sc, v)
